@@ -4,6 +4,7 @@ import (
 	"fmt"
 	"go/token"
 	"go/types"
+	"sort"
 	"strings"
 
 	"golang.org/x/tools/go/ssa"
@@ -221,6 +222,41 @@ func checkC04(p *Program, r *Report) {
 	n := padObligations(p, r, "C04.pad", pkgFuncs(p, "hdkeychain"))
 	if n == 0 {
 		r.Unresolved("C04.pad", "a (*big.Int).Bytes() source in hdkeychain")
+	}
+	// ---- C04.pure: derivation reads its inputs, it does not write them (a wiped seed or a scratch buffer kept in the
+	// parent makes the next derivation from the same seed / parent differ)
+	{
+		ef := NewEffects(p)
+		for _, name := range []string{"NewMaster", "(*ExtendedKey).Child", "(*ExtendedKey).Neuter"} {
+			fn := p.Func("hdkeychain", name)
+			if fn == nil {
+				r.Unresolved("C04.pure", "hdkeychain."+name)
+				continue
+			}
+			var bad []string
+			for _, e := range ef.WriteEffects(fn) {
+				switch e.Root.Kind {
+				case rkParam, rkFreeVar:
+					// the lazily filled public-key memo of a private key is the one sanctioned write (C15.memo keeps it coherent)
+					if e.Root.Idx == 0 && fn.Signature.Recv() != nil && strings.HasPrefix(e.Root.Path, "*.pubKey") && !strings.Contains(strings.TrimPrefix(e.Root.Path, "*.pubKey"), ".") && strings.TrimPrefix(e.Root.Path, "*.pubKey") == "" {
+						continue
+					}
+					bad = append(bad, fmt.Sprintf("%s → %s at %s", e.What, e.Root, p.Pos(e.Pos)))
+				case rkUnknown:
+					bad = append(bad, fmt.Sprintf("%s → unresolved target at %s", e.What, p.Pos(e.Pos)))
+				case rkGlobal:
+					bad = append(bad, fmt.Sprintf("%s → package-level %s at %s", e.What, e.Root, p.Pos(e.Pos)))
+				}
+			}
+			sort.Strings(bad)
+			bad = dedup(bad)
+			how := "no store, copy or writer call targets the seed, the parent key's buffers or package-level state (the public-key memo field excepted)"
+			if len(bad) > 0 {
+				how = strings.Join(bad, "; ")
+			}
+			r.Add("C04.pure", FnName(fn), "derivation leaves its inputs untouched", fn.Pos(), len(bad) == 0, how)
+		}
+		r.Floor("C04.pure", 3)
 	}
 	r.Floor("C04.pad", 1)
 
